@@ -5,7 +5,7 @@ import shutil
 import tempfile
 
 from engine import gen_states, pool_map
-from readers import run_cli, split_tag, write_text
+from readers import eol_for, run_cli, split_tag, write_text
 
 N1 = "ACGTTGCAAGGCTTAACGGATCCA"
 N2 = "TTGACCGATAGGCATCAAGT"
@@ -59,7 +59,7 @@ def run_file(job):
             f.write(f"S\ts1\t{N1}\tLN:i:{len(N1)}\tSN:Z:chr1\tSO:i:0\tSR:i:0\nS\ts2\t{N2}\tLN:i:{len(N2)}\tSN:Z:chr1\tSO:i:{len(N1)}\tSR:i:0\nL\ts1\t+\ts2\t+\t0M\n")
         lines = [make_line(k, fl, cg, rev, sp) for (k, fl, cg, rev, sp) in specs]
         gaf = os.path.join(d, "u.gaf")
-        write_text(gaf, "\n".join(lines) + "\n")
+        write_text(gaf, "\n".join(lines) + eol_for(fid))
         cases = []
 
         def emit(path, argv, inp_lines, out_path):
